@@ -153,6 +153,7 @@ struct ExModel {
 
 	// ---- text input for a/i/c/rs
 	bool starved = false;	// a text block was needed but the input ended before its "."
+	bool pending_soft = false, murky = false;	// see exec()
 	std::vector<std::string> read_block()
 	{
 		std::vector<std::string> t;
@@ -240,6 +241,9 @@ struct ExModel {
 	ExResult exec(const std::string &line)
 	{
 		ExResult R;
+		// a command that follows a softly rejected one inside the same step (register body, | list) runs on a
+		// current line the reference does not define
+		if (pending_soft) murky = true;
 		P p{line, 0};
 		while (p.i < line.size() && (line[p.i] == ':' || line[p.i] == ' ')) p.i++;
 		int a = cur, b = cur, naddr = 0;
@@ -275,6 +279,7 @@ struct ExModel {
 					bool zero_only = a >= 0 && b >= 0 && a <= b && b <= n() && (a == 0 || b == 0) && a == b;
 					ExResult rr = reject("address out of range");
 					rr.soft = zero_only && (cmd == "p" || cmd == "s");	// neatvi: these do nothing on line 0 and report success
+					if (rr.soft) pending_soft = true;
 					return rr;
 				}
 			}
